@@ -551,7 +551,8 @@ struct Judge {
     // (An exactly zero witness is different: "transitions away from zero are not reported" is decidable.)
     bool ambiguousAtStart(const Wit& w, const Traj& T) const {
         const double g0 = std::fabs(w.sg(T.ts, T.y.data()));
-        return g0 > 0 && g0 <= 100 * w.gtol(T.ts, T.y.data());
+        // (the boolean witness is -k, not 0, when z == L exactly: its jump to +k comes immediately after the start)
+        return (g0 > 0 || w.kind == WBoolZ) && g0 <= 100 * w.gtol(T.ts, T.y.data());
     }
     // state y at time t must lie on the analytic trajectory (exactly integrated components only)
     void onTraj(const std::string& what, const Traj& T, double t, const std::vector<double>& y) {
@@ -1141,7 +1142,7 @@ void runManual(Ctx& c, Scen& sc, Built& B) {
             c.require("event:returned-state-time-is-tLow:" + tag, t == tLow, base);
             c.require("event:advanced-time-is-tHigh:" + tag, tAdv == tHigh, base);
             J.requireK("event:window-nonempty:" + tag, tLow < tHigh, seg, tHigh, base);
-            c.require("event:windows-in-time-order:" + tag, tLow >= lastTHigh && tLow >= seg.ts, [&] { return base().set("prevTHigh", lastTHigh); });
+            J.requireK("event:windows-in-time-order:" + tag, tLow >= lastTHigh && tLow >= seg.ts, seg, tHigh, [&] { return base().set("prevTHigh", lastTHigh); });
             // (report/scheduled/final times inside the window are C19's invariant I6, not judged here)
             bool sizes = ids.size() > 0 && est.size() == ids.size() && trans.size() == ids.size();
             c.require("event:arrays-consistent:" + tag, sizes, base);
